@@ -86,6 +86,13 @@ class Scenario:
                 d = o.get("date", 1000000000)
                 raw += b"author A <a@example.com> %d +0000\ncommitter C <c@example.com> %d +0000\n" % (d, d)
                 raw += o.get("extra", b"")
+                for q in o.get("quoted", []):
+                    # a mergetag header (what `git merge <signed tag>` writes): the embedded tag object — its own headers and
+                    # its free text, here quoting header look-alikes with REAL object ids — sits in continuation lines
+                    qo = self.oids[q].hex().encode()
+                    raw += (b"mergetag object " + qo + b"\n type commit\n tag quoted\n tagger T <t@example.com> 1 +0000\n \n parent " + qo +
+                            b"\n tree " + self.oids[o["tree"]].hex().encode() + b"\n -----BEGIN PGP SIGNATURE-----\n \n parent " + qo +
+                            b"\n -----END PGP SIGNATURE-----\n")
                 raw += b"\n" + o.get("msg", b"msg\n")
                 size = len(raw)
                 oid = hashlib.sha1(b"commit %d\0" % size + raw).digest()
@@ -118,6 +125,8 @@ class Scenario:
             elif k == "commit":
                 o2["tree"] = remap[o["tree"]]
                 o2["parents"] = [remap[p] for p in o["parents"]]
+                if o.get("quoted"):
+                    o2["quoted"] = [remap[q] for q in o["quoted"]]
             elif k == "tag":
                 o2["target"] = remap[o["target"]]
             n.objects.append(o2)
@@ -511,8 +520,9 @@ def gen_graph(rng, size="small", big_blobs=False):
         if rng.random() < 0.2:
             extra = b"gpgsig -----BEGIN PGP SIGNATURE-----\n \n parent " + b"0" * 40 + b"\n -----END PGP SIGNATURE-----\n"
         msg = rng.choice([b"m\n", b"longer message\n\nwith body\n", b"x" * rng.randrange(1, 300) + b"\n"])
+        quoted = [rng.choice(commits)] if commits and rng.random() < 0.12 else []
         commits.append(s.add({"kind": "commit", "tree": rng.choice(trees), "parents": parents, "date": date,
-                              "extra": extra, "msg": msg}))
+                              "extra": extra, "msg": msg, "quoted": quoted}))
     tags = []
     for _ in range(rng.choice([0, 0, 1, 2, 4])):
         pool = commits + trees[:1] + blobs[:1] + tags + tags
